@@ -180,6 +180,9 @@ impl<'a> WireFormat<'a> for Name<'a> {
     where
         Self: Sized,
     {
+        #[cfg(simple_dns_verif)]
+        crate::dns::verif::record(4, *position, 0, 0);
+
         let mut following_compression_pointer = false;
         let mut labels = Vec::new();
 
